@@ -35,6 +35,12 @@ def gen_fn_scenario(rng: random.Random, static_only=True, simple_sigs=False, bod
     kwnames = [KW_BASE, KW_BASE + 1] if (not simple_sigs and rng.random() < 0.35) else []
     nmeth = rng.randint(1, 6)
     pool_types = [g.gen(1) for _ in range(rng.randint(2, 5))]
+    if rng.random() < 0.6:
+        tb = w.tables()["sub"]
+        focus = max(range(NBUILTIN, w.n), key=lambda c: (sum(tb[c]), rng.random()))
+        anc = [c for c in range(w.n) if tb[focus][c] and c != 1]
+        rng.shuffle(anc)
+        pool_types = [["cls", c] for c in anc[: rng.randint(2, 6)]] + pool_types[:1]
     ismeth = (rng.random() < 0.2) if is_method is None else is_method
     defs = []
     # instances of every user class (two of some, so that identity matters)
